@@ -488,7 +488,7 @@ pub fn check_outcome(model: &Program, case: &ReplyCase, harness: &Harness, out: 
 }
 
 /// Run one reply case through `dispatch_reply` and compare with the reference semantics.
-pub fn run_reply_case(p: &Prog, rows: &[ReplyRow], methods: &[ReplyMethodView], ids: &ReplyIds, case: &ReplyCase, prefix: &str, via_entry: bool) -> Result<Expect, Bad> {
+pub fn run_reply_case(p: &Prog, rows: &[ReplyRow], methods: &[ReplyMethodView], ids: &ReplyIds, case: &ReplyCase, prefix: &str, via: u8) -> Result<Expect, Bad> {
     let (id, payload, payload_valid) = if case.row >= rows.len() {
         // an id that belongs to no handler
         let mut id = case.unknown_id;
@@ -513,8 +513,11 @@ pub fn run_reply_case(p: &Prog, rows: &[ReplyRow], methods: &[ReplyMethodView], 
     };
     let reply = Reply { id, payload: Binary::from(payload), gas_used: case.gas_used, result: sub_result(case) };
     let mut harness = case.env.harness();
-    let out = if via_entry {
-        let Some(entry) = p.entries.get(&svmodel::Kind::Reply) else { return Err(Bad::Harness("HARNESS: no reply entry point".into())) };
+    // route: 0 = generated dispatch_reply, 1 = generated reply entry point, 2 = the reply
+    // operation of the generated multitest `cw_multi_test::Contract` impl
+    let out = if via == 1 || via == 2 {
+        let table = if via == 1 { &p.entries } else { &p.mt_entries };
+        let Some(entry) = table.get(&svmodel::Kind::Reply) else { return Err(Bad::Harness("HARNESS: no reply entry point".into())) };
         let bytes = serde_json::to_vec(&reply).unwrap();
         entry(&mut harness, &bytes).map_err(|e| Bad::Harness(format!("HARNESS: reply json: {e}")))?
     } else {
